@@ -89,6 +89,20 @@ def decision (s : St) : Nat × Int :=
     | some e => (2, e)
     | none => (1, 0)
 
+/-- the values sent by the predecessors -/
+def vals (s : St) : Nat → Option Int := fun i =>
+  match s.compl i with
+  | some (_, a) => some a
+  | none => none
+
+/-- What `when_all` must deliver, as a function of the history alone: the first non-value
+    completion to reach the latch decides (stopped, or that error); if there is none, the values
+    of all predecessors in predecessor order. -/
+def decisionG (s : St) : Nat × Int :=
+  match s.first with
+  | none => (0, enc (vals s) s.n)
+  | some (_, ch, e) => if ch = 1 then (1, 0) else (2, e)
+
 /-- After a receiver call returns: the producer's op returns, the starter goes on with the loop. -/
 def afterCall (s : St) (t : Nat) (cx : Ctx) : St :=
   match cx with
